@@ -237,10 +237,20 @@ func ruleExpReject(w *World, r *Report) {
 			continue
 		}
 		var sinks []ssa.Instruction
+		// `put(id, fact)`: a helper that only sets the entry writes for its caller
+		setters, _ := factMapHelpers(w, a, owner)
+		if _, isHelper := setters[fn]; isHelper {
+			continue
+		}
 		allInstrs(fn, func(in ssa.Instruction) {
 			if c := callOf(in); c != nil {
 				if o := calleeObj(c); o != nil && o.Name() == "Add" && isIfaceMethodCall(c, st, "Add") {
 					sinks = append(sinks, in)
+				}
+				if f := c.StaticCallee(); f != nil {
+					if _, isHelper := setters[f]; isHelper {
+						sinks = append(sinks, in)
+					}
 				}
 			}
 			if mu, ok := in.(*ssa.MapUpdate); ok && isFieldLoad(mu.Map, owner, stateFactField[owner]) {
